@@ -15,19 +15,30 @@ EXTENDS Integers, Sequences, FiniteSets, TLC, SequencesExt, Json, IOUtils
 CONSTANTS GrowNum, GrowDen   \* Bound: total <= max(initial, GrowNum/GrowDen * peakLive + slack)
 
 TraceLog == ndJsonDeserialize(IOEnv.TRACE)
-VARIABLES l, segs, peak, gcs, pendingGrow, run
-vars == <<l, segs, peak, gcs, pendingGrow, run>>
+VARIABLES l, segs, peak, gcs, pendingGrow, run,
+          expect    \* expect[prog] = observable output of the first (reference) run of prog
+vars == <<l, segs, peak, gcs, pendingGrow, run, expect>>
 
 Ev == TraceLog[l]
 IsEvent(e) == l <= Len(TraceLog) /\ Ev.e = e /\ l' = l + 1
 Sum(q) == FoldLeft(LAMBDA a, b : a + b, 0, q)
 Total(sg) == Sum(sg)
 
-Init == l = 1 /\ segs = <<>> /\ peak = 0 /\ gcs = 0 /\ pendingGrow = <<>> /\ run = 0
+Init == l = 1 /\ segs = <<>> /\ peak = 0 /\ gcs = 0 /\ pendingGrow = <<>> /\ run = 0 /\ expect = [p \in {} |-> ""]
 
 \* a new execution starts (harness marker)
 TRun == /\ IsEvent("Run")
         /\ segs' = <<>> /\ peak' = 0 /\ gcs' = 0 /\ pendingGrow' = <<>> /\ run' = run + 1
+        /\ UNCHANGED expect
+
+\* C02 schedule independence: an execution ended; its exit status is 0 and its observable output equals
+\* the output of the reference run of the same program (the first run, made without forced collections)
+TEnd == /\ IsEvent("End")
+        /\ Ev.rc = 0
+        /\ IF Ev.prog \in DOMAIN expect
+           THEN Ev.out = expect[Ev.prog] /\ UNCHANGED expect
+           ELSE expect' = [p \in DOMAIN expect \cup {Ev.prog} |-> IF p = Ev.prog THEN Ev.out ELSE expect[p]]
+        /\ UNCHANGED <<segs, peak, gcs, pendingGrow, run>>
 
 SegOk(sm) == /\ sm[3] + sm[5] + 1 = sm[1]     \* free + live + sentinel = size
              /\ sm[6] = 1                     \* the tiling walk ended exactly at the segment end
@@ -47,17 +58,18 @@ TGc == /\ IsEvent("Gc")
              /\ peak' = IF live > peak THEN live ELSE peak
              /\ gcs' = gcs + 1
              /\ pendingGrow' = <<>>
-       /\ UNCHANGED run
+       /\ UNCHANGED <<run, expect>>
 
 TGrow == /\ IsEvent("Grow")
          /\ pendingGrow' = IF Ev.ok = 1 THEN Append(pendingGrow, Ev.new) ELSE pendingGrow
-         /\ UNCHANGED <<segs, peak, gcs, run>>
+         /\ UNCHANGED <<segs, peak, gcs, run, expect>>
 
 \* events of other subsystems interleaved in the same log are skipped
-TOther == /\ l <= Len(TraceLog) /\ Ev.e \notin {"Run", "Gc", "Grow"}
-          /\ l' = l + 1 /\ UNCHANGED <<segs, peak, gcs, pendingGrow, run>>
+\* (a Crash event has no action: a crashed execution is never accepted)
+TOther == /\ l <= Len(TraceLog) /\ Ev.e \notin {"Run", "Gc", "Grow", "End", "Crash"}
+          /\ l' = l + 1 /\ UNCHANGED <<segs, peak, gcs, pendingGrow, run, expect>>
 
-Next == TRun \/ TGc \/ TGrow \/ TOther
+Next == TRun \/ TGc \/ TGrow \/ TEnd \/ TOther
 Spec == Init /\ [][Next]_vars
 
 \* recycling: the heap total is bounded by a constant multiple of the peak live size
